@@ -39,6 +39,11 @@ class Fn:
         return None
 
     @property
+    def is_ctor(self):
+        """THE constructor of a type: an inherent associated function called `new` (not an inner fn, not a trait method)"""
+        return self.name == "new" and not self.impl_trait and self.self_struct is not None and self.kind != "Closure"
+
+    @property
     def trait_short(self):
         return short(self.impl_trait) if self.impl_trait else None
 
@@ -228,7 +233,7 @@ class Facts:
                     return False
                 if c in hs:
                     work.append(c)
-                elif f.name != "new":
+                elif not f.is_ctor:
                     return False
         return True
 
